@@ -46,7 +46,7 @@ impl Prop for C09 {
         "C09"
     }
     fn rule(&self) -> String {
-        "12 magnitudes (absolute zero, -40, freezing/boiling points, fractions) x all 36 ordered pairs of the six scale spellings (K kelvin °C celsius °F fahrenheit) as direct conversions; all chains x S1 to S2 to S3 [to S4] over the three scales (thorough: all six spellings); exact inverse; prefixed scales (m k n G milli kilo on K/°C/°F and their long names: every ordered pair of 21 words x 5 magnitudes, and chains through a prefixed scale; judged only when the tool reads the word as that prefixed scale); scales not alone with power one: S^n (n in -3..3 except 1), S*u, S/u, u/S, u*S*v with u,v in {m,s,J,kg} converted to the same shape over another scale: result must be an error or the interval conversion (°C->K x1, °F->K x5/9 per power) and never contain the zero-point offset. Non-trivial = source and target scale differ; distinct = distinct query strings".into()
+        "12 magnitudes (absolute zero, -40, freezing/boiling points, fractions) x all 36 ordered pairs of the six scale spellings (K kelvin °C celsius °F fahrenheit) as direct conversions; all chains x S1 to S2 to S3 [to S4] over the three scales (thorough: all six spellings); exact inverse; several casts of one scale pair in one query (a difference of two casts, two and three results); prefixed scales (m k n G milli kilo on K/°C/°F and their long names: every ordered pair of 21 words x 5 magnitudes, and chains through a prefixed scale; judged only when the tool reads the word as that prefixed scale); scales not alone with power one: S^n (n in -3..3 except 1), S*u, S/u, u/S, u*S*v with u,v in {m,s,J,kg} converted to the same shape over another scale: result must be an error or the interval conversion (°C->K x1, °F->K x5/9 per power) and never contain the zero-point offset. Non-trivial = source and target scale differ; distinct = distinct query strings".into()
     }
     fn assumptions(&self) -> Vec<String> {
         vec!["K = C + 273.15 and C = (F - 32) * 5/9 are written out in the harness, independent of src/units/temperature.rs".into()]
@@ -115,6 +115,21 @@ impl Prop for C09 {
                 }
             }
         }
+        // several casts of one scale pair inside one query (a difference, and a query with several
+        // results): each cast must convert its own operand
+        for (a, ka) in sym_scales {
+            for (b, kb) in sym_scales {
+                if a == b {
+                    continue;
+                }
+                for (x, y) in [("20", "10"), ("10", "30"), ("-40", "100"), ("0.5", "273.15")] {
+                    let d = serde_json::json!({"x": x, "y": y, "a": ka.to_string(), "b": kb.to_string()});
+                    sink(Case::with("multi-sub", format!("({x} {a} to {b}) - ({y} {a} to {b})"), d.clone()));
+                    sink(Case::with("multi-res", format!("({x} {a} to {b}) ({y} {a} to {b})"), d.clone()));
+                    sink(Case::with("multi-res", format!("({x} {a} to {b}) ({y} {a} to {b}) ({x} {a} to {b})"), d));
+                }
+            }
+        }
         // not alone with power one
         let others = ["m", "s", "J", "kg"];
         let pairs = [("°C", "K"), ("K", "°C"), ("°F", "K"), ("K", "°F"), ("°C", "°F"), ("°F", "°C"), ("celsius", "kelvin"), ("fahrenheit", "celsius")];
@@ -151,6 +166,34 @@ impl Prop for C09 {
     }
     fn check(&self, env: &mut Env, case: &Case) -> Verdict {
         let q = &case.key;
+        if case.fam == "multi-res" || case.fam == "multi-sub" {
+            let ch = |k: &str| case.data[k].as_str().unwrap().chars().next().unwrap();
+            let (a, b) = (ch("a"), ch("b"));
+            let cx = from_k(&to_k(&ref_decimal(case.data["x"].as_str().unwrap()).unwrap(), a), b);
+            let cy = from_k(&to_k(&ref_decimal(case.data["y"].as_str().unwrap()).unwrap(), a), b);
+            let want: Vec<BigRational> = if case.fam == "multi-sub" { vec![&cx - &cy] } else if q.matches(" to ").count() == 3 { vec![cx.clone(), cy, cx] } else { vec![cx, cy] };
+            let got = match obs::eval(env.db(), q) {
+                Some(r) => r,
+                None => return fw::fail(format!("results:{}", case.fam), format!("{q}: parse failed")),
+            };
+            if got.len() != want.len() {
+                return fw::fail(format!("results:{}", case.fam), format!("{q}: {} results, expected {}", got.len(), want.len()));
+            }
+            for (i, (g, w)) in got.iter().zip(want.iter()).enumerate() {
+                match g {
+                    Res::Ok { value, unit, unit_text } => {
+                        if unit.len() != 1 || unit[0].1 != 1 || unit[0].2 != 0 || scale_of_key(&unit[0].0) != Some(b) {
+                            return fw::fail(format!("{}:{a}->{b}:unit", case.fam), format!("{q}: result #{i} is not in the target scale: [{unit_text}]"));
+                        }
+                        if value != w {
+                            return fw::fail(format!("{}:{a}->{b}:value", case.fam), format!("{q}: result #{i}: expected {w}, got {value} (each cast converts its own operand)"));
+                        }
+                    }
+                    Res::Err { msg, .. } => return fw::fail(format!("{}:{a}->{b}:refused", case.fam), format!("{q}: result #{i} refused: {msg}")),
+                }
+            }
+            return fw::pass(true, fw::hash_str(q));
+        }
         let got = match obs::eval_one(env.db(), q) {
             Ok(r) => r,
             Err(why) => return fw::fail(format!("results:{}", case.fam), format!("{q}: {why}")),
